@@ -1,8 +1,10 @@
 package graph
 
 import (
+	"cmp"
 	"errors"
 	"fmt"
+	"slices"
 
 	"gonum.org/v1/gonum/graph"
 	"gonum.org/v1/gonum/graph/encoding"
@@ -76,9 +78,13 @@ func (g *AuthorizationModelGraph) Reversed() (*AuthorizationModelGraph, error) {
 			return nil, fmt.Errorf("%w: could not cast to multi.Edge", ErrBuildingGraph)
 		}
 		// NOTE: because we use a multigraph, one edge can include multiple lines, so we need to add each line individually.
-		iterLines := nextEdge.Lines
-		for iterLines.Next() {
-			nextLine := iterLines.Line()
+		// The lines are added in the order of their IDs so that the lines of the copy get the same IDs
+		// (which decide the order of the DOT output), whatever the iteration order.
+		lines := graph.LinesOf(nextEdge.Lines)
+		slices.SortFunc(lines, func(a, b graph.Line) int {
+			return cmp.Compare(a.ID(), b.ID())
+		})
+		for _, nextLine := range lines {
 			casted, ok := nextLine.(*AuthorizationModelEdge)
 			if !ok {
 				return nil, fmt.Errorf("%w: could not cast to AuthorizationModelEdge", ErrBuildingGraph)
